@@ -228,7 +228,9 @@ func ruleKeyBlock(c *Ctx, r *Report) {
 	seen := 0
 	// symbolic execution of the partition: works for the straight-line slicing as well as for a
 	// cursor (closure or helper) that hands out consecutive pieces
-	outs := c.symRun(fn, nil, func(g *ssa.Function) bool { return g.Parent() != nil || (g.Pkg == fn.Pkg && !token.IsExported(g.Name()) && g.Name() != "PHash") })
+	outs := c.symRun(fn, nil, func(g *ssa.Function) bool {
+		return g.Parent() != nil || (g.Pkg == fn.Pkg && !token.IsExported(g.Name()) && g.Name() != "PHash")
+	})
 	if len(outs) == 0 {
 		r.Unk(rule, short(fn), c.pos(fn.Pos()), "no successful return found by the symbolic execution")
 	}
